@@ -102,10 +102,40 @@ def cases_for(tier, seed):
     return cases
 
 
+def design_level(wd):
+    """NunSync: the race of the catch-up with live replication at the granularity of the cluster-state lock.  TLC on
+    both lock scopes (the pinned one must hold, the builder outside the lock must lose a write: sensitivity of the
+    model, not a verdict on the code); Apalache: the inductive invariant of the pinned scope for any number of writes."""
+    import subprocess
+    import tlc
+    rc, out, _ = tlc.run_tlc("NunSync.tla", "NunSync.cfg", workers=2, timeout=600, heap="2g")
+    if "No error has been found" not in out:
+        raise common.ToolError("NunSync (pinned lock scope) does not satisfy NoLostWrite / EventuallyEqual:\n" + out[-2000:])
+    gen, distinct = tlc.stats(out)
+    rc2, out2, _ = tlc.run_tlc("NunSync.tla", "NunSync_unlocked.cfg", workers=2, timeout=600, heap="2g")
+    if "Invariant NoLostWrite is violated" not in out2:
+        raise common.ToolError("NunSync with the builder outside the lock no longer loses a write:\n" + out2[-2000:])
+    adir = os.path.join(tlc.SPEC, "apalache")
+    obligations = []
+    for init, inv, length in (("Init", "IndInv", 0), ("IndInit", "IndInv", 1), ("IndInit", "NoLostWrite", 0)):
+        p = subprocess.run(["timeout", "900", "apalache-mc", "check", "--cinit=ConstInit", "--init=" + init, "--inv=" + inv,
+                            "--length=%d" % length, "--out-dir=" + os.path.join(wd, "apalache"), "NunSyncInd.tla"],
+                           cwd=adir, stdout=subprocess.PIPE, stderr=subprocess.STDOUT)
+        o = p.stdout.decode(errors="replace")
+        if "The outcome is: NoError" not in o:
+            raise common.ToolError("Apalache: NunSyncInd %s => %s (length %d) not established:\n%s" % (init, inv, length, o[-2000:]))
+        obligations.append("%s => %s, length %d: NoError" % (init, inv, length))
+    return {"module": "NunSync.tla (Away = 2, Live = 3)", "states": distinct, "transitions": gen,
+            "pinned_lock_scope": "NoLostWrite, EventuallyEqual hold", "builder_outside_the_lock": "NoLostWrite violated (as it must)",
+            "inductive_invariant": {"module": "spec/apalache/NunSyncInd.tla", "tool": "apalache-mc 0.58",
+                                    "obligations": obligations, "constants": "any number of writes while away and during the synchronisation"}}
+
+
 def run(tier, seed):
     res = common.Result(PROP, tier, seed, "model_checking")
     wd = common.workdir(PROP)
     devs, known = common.load_findings(PROP)
+    sync_model = design_level(wd)
     cases = cases_for(tier, seed)
     raws = common.run_cases_parallel("cluster", cases, wd, procs=12, timeout=3000,
                                      env={"NUN_ELECTION_TIMEOUT": "10"})
@@ -127,6 +157,7 @@ def run(tier, seed):
         "states": out["states"], "transitions": out["events"],
         "model": "Trace_Cluster.tla (ClusterMonitor reference, group CONV at the quiescence after the rejoin)",
         "traces_validated_against_impl": out["runs"], "events_validated": out["events"], "cases": len(cases),
+        "NunSync": sync_model,
         "catch_up_calls_checked_against_NunCatchUp": checked, "catch_up_calls_not_conforming": sum(len(v) for v in bad.values()),
         "receive_intervals_checked_against_NunRecv": checked_recv,
         "receive_intervals_not_conforming": sum(len(v) for v in bad_recv.values()),
